@@ -101,9 +101,13 @@ prop("C04", "exploration",
      "drawn order with faults, retransmissions, receiver restarts (predecessor known only from the log), CleanNow/Prune and simulated waits that fire the "
      "10 s retry and the 30 min cleaner; oracle: in the receive log no record of F precedes the first record of its predecessor unless F's chain runs "
      "into a cycle and a cleaner run was possible; a held file polls as waiting; deliverable files are delivered by the end; non-trivial = some file "
-     "was complete and validated before its predecessor was delivered (observed held in staging)",
+     "was complete and validated before its predecessor was delivered (observed held in staging). Directed: the predecessor was delivered 0-6 days "
+     "ago and the receiver restarted since (the delivery is known only from day files further back in the receive log); the successor(s) must be released "
+     "within two simulated minutes, after the predecessor",
      [dict(pkg="stagex", test="TestC04Stage", world="W1r", quick=1600, thorough=48000, per_proc=100, shrink_runs=200,
-           required_classes=["held-for-predecessor", "delivered-after-predecessor", "cycle-released", "restart"])],
+           required_classes=["held-for-predecessor", "delivered-after-predecessor", "cycle-released", "restart"]),
+      dict(pkg="stagex", test="TestC04OldPredecessor", world="W1r", quick=600, thorough=20000, per_proc=100, shrink_runs=100,
+           required_classes=["predecessor-delivered-3+-days-ago", "restart"])],
      STAGE_ASSUME + ["every version announces one fixed predecessor; end-to-end order through a real sender is judged in the simulation checks"])
 
 prop("C05", "exploration",
